@@ -327,73 +327,90 @@ def scanEntries (log : List Entry) (lastLogIdx snapIdx : Nat) : List Entry → O
 
 def lastOf (es : List Entry) (dflt : Entry) : Entry := es.getLastD dflt
 
-def aePlan (cf : Cfg) (d : Durable) (v : Vol) (a : AEReq) : Plan :=
-  let fail (v' : Vol) (noRetry : Bool) (t : Nat) : Res := mkRes (.append t (lastIndex v) false noRetry) v'
-  if a.term < v.term then ⟨[], fail v false v.term⟩
+/-- does this request make the server step down (and persist the term) -/
+def aeDown (v : Vol) (a : AEReq) : Prop := a.term > v.term ∨ (v.role ≠ .follower ∧ ¬ v.transfer)
+
+instance (v : Vol) (a : AEReq) : Decidable (aeDown v a) := by unfold aeDown; infer_instance
+
+def aeFail (v0 : Vol) (v' : Vol) (noRetry : Bool) (t : Nat) : Res := mkRes (.append t (lastIndex v0) false noRetry) v'
+
+/-- the term write, if any -/
+def aePre (v : Vol) (a : AEReq) : List (Write × Res) :=
+  if aeDown v a then [(.setTerm a.term, { aeFail v { v with role := .follower, leader := 0, leaderId := 0 } false v.term with panic := true })] else []
+
+/-- volatile state after the term / role / leader updates -/
+def aeVol2 (v : Vol) (a : AEReq) : Vol :=
+  let v1 : Vol := if aeDown v a then stepDown v a.term else v
+  { v1 with leader := a.leader, leaderId := a.leaderId }
+
+/-- the previous-entry check: `none` = the entry could not be read -/
+def aePrevOk (d : Durable) (v2 : Vol) (a : AEReq) : Option Bool :=
+  if a.prevIdx = 0 then some true
   else
-    let down := a.term > v.term ∨ (v.role ≠ .follower ∧ ¬ v.transfer)
-    let pre : List (Write × Res) :=
-      if down then [(.setTerm a.term, { fail { v with role := .follower, leader := 0, leaderId := 0 } false v.term with panic := true })] else []
-    let v1 : Vol := if down then stepDown v a.term else v
-    let t1 := v1.term
-    let v2 : Vol := { v1 with leader := a.leader, leaderId := a.leaderId }
-    -- previous-entry check
-    let prevOk : Option Bool :=       -- none = entry not readable
-      if a.prevIdx = 0 then some true
+    let le := lastEntry v2
+    if a.prevIdx = le.1 then some (a.prevTerm = le.2)
+    else if a.prevIdx = v2.snapIdx then some (a.prevTerm = v2.snapTerm)   -- the snapshot boundary
+    else if a.prevIdx < v2.snapIdx then some true                         -- covered by the snapshot
+    else match getLog d.log a.prevIdx with
+      | none => none
+      | some pe => some (a.prevTerm = pe.term)
+
+/-- the commit-index update and `processLogs`, after everything has been stored -/
+def aeFinish (v0 : Vol) (t1 : Nat) (a : AEReq) (steps : List (Write × Res)) (dlog : List Entry) (v3 : Vol) : Plan :=
+  -- only entries this request covers are known to match the leader's log
+  let lastCovered := match a.entries.getLast? with
+    | some e => e.index
+    | none => a.prevIdx
+  let idx := min a.commit lastCovered
+  if a.commit > 0 ∧ a.commit > v3.commit ∧ idx > v3.commit then
+    let v4 : Vol := { v3 with commit := idx }
+    let v5 : Vol := if v4.latestIdx ≤ idx then { v4 with committed := v4.latest, committedIdx := v4.latestIdx } else v4
+    match processLogs dlog v5.applied idx with
+    | none => ⟨steps, { mkRes .none v5 with panic := true }⟩
+    | some calls =>
+      let v6 : Vol := if idx ≤ v5.applied then v5 else { v5 with applied := idx }
+      ⟨steps, ⟨.append t1 (lastIndex v0) true false, v6, calls, false⟩⟩
+  else ⟨steps, mkRes (.append t1 (lastIndex v0) true false) v3⟩
+
+/-- the entries part: scan, truncate from the first conflict, stage, store, configurations -/
+def aeBody (cf : Cfg) (d : Durable) (v : Vol) (a : AEReq) (pre : List (Write × Res)) (v2 : Vol) (t1 : Nat) : Plan :=
+  if a.entries = [] then aeFinish v t1 a pre d.log v2
+  else
+    match scanEntries d.log v2.lastLogIdx v2.snapIdx a.entries with
+    | none => ⟨pre, aeFail v v2 false t1⟩
+    | some (conflict, newEntries) =>
+      let (steps1, dlog1, v3, reloadOk) : List (Write × Res) × List Entry × Vol × Bool :=
+        match conflict with
+        | none => (pre, d.log, v2, true)
+        | some ci =>
+          let d1 := deleteRangeD d ci v2.lastLogIdx
+          -- the cached last log entry is reloaded from the truncated store
+          let v3 : Vol := reloadLast d1 v2
+          let v3' : Vol := if ci ≤ v2.latestIdx then { v3 with latest := v2.committed, latestIdx := v2.committedIdx } else v3
+          (pre ++ [(.deleteRange ci v2.lastLogIdx, aeFail v v2 false t1)], d1.log, (if reloadable d1 then v3' else v2), reloadable d1)
+      if !reloadOk then ⟨steps1, aeFail v v3 false t1⟩
+      else if newEntries = [] then aeFinish v t1 a steps1 dlog1 v3
       else
-        let le := lastEntry v2
-        if a.prevIdx = le.1 then some (a.prevTerm = le.2)
-        else if a.prevIdx = v2.snapIdx then some (a.prevTerm = v2.snapTerm)   -- the snapshot boundary
-        else if a.prevIdx < v2.snapIdx then some true                         -- covered by the snapshot
-        else match getLog d.log a.prevIdx with
-          | none => none
-          | some pe => some (a.prevTerm = pe.term)
-    match prevOk with
-    | none => ⟨pre, fail v2 true t1⟩
-    | some false => ⟨pre, fail v2 true t1⟩
-    | some true =>
-      -- commit-index update + processLogs, shared by the paths below
-      let finish (steps : List (Write × Res)) (dlog : List Entry) (v3 : Vol) : Plan :=
-        -- only entries this request covers are known to match the leader's log
-        let lastCovered := match a.entries.getLast? with
-          | some e => e.index
-          | none => a.prevIdx
-        let idx := min a.commit lastCovered
-        if a.commit > 0 ∧ a.commit > v3.commit ∧ idx > v3.commit then
-          let v4 : Vol := { v3 with commit := idx }
-          let v5 : Vol := if v4.latestIdx ≤ idx then { v4 with committed := v4.latest, committedIdx := v4.latestIdx } else v4
-          match processLogs dlog v5.applied idx with
-          | none => ⟨steps, { mkRes .none v5 with panic := true }⟩
-          | some calls =>
-            let v6 : Vol := if idx ≤ v5.applied then v5 else { v5 with applied := idx }
-            ⟨steps, ⟨.append t1 (lastIndex v) true false, v6, calls, false⟩⟩
-        else ⟨steps, mkRes (.append t1 (lastIndex v) true false) v3⟩
-      if a.entries = [] then finish pre d.log v2
-      else
-        match scanEntries d.log v2.lastLogIdx v2.snapIdx a.entries with
-        | none => ⟨pre, fail v2 false t1⟩
-        | some (conflict, newEntries) =>
-          let (steps1, dlog1, v3, reloadOk) : List (Write × Res) × List Entry × Vol × Bool :=
-            match conflict with
-            | none => (pre, d.log, v2, true)
-            | some ci =>
-              let d1 := deleteRangeD d ci v2.lastLogIdx
-              -- the cached last log entry is reloaded from the truncated store
-              let v3 : Vol := reloadLast d1 v2
-              let v3' : Vol := if ci ≤ v2.latestIdx then { v3 with latest := v2.committed, latestIdx := v2.committedIdx } else v3
-              (pre ++ [(.deleteRange ci v2.lastLogIdx, fail v2 false t1)], d1.log, (if reloadable d1 then v3' else v2), reloadable d1)
-          if !reloadOk then ⟨steps1, fail v3 false t1⟩
-          else if newEntries = [] then finish steps1 dlog1 v3
-          else
-            let dflt : Entry := ⟨0, 0, 0, 0, []⟩
-            let lastNew := lastOf newEntries dflt
-            let stageSteps : List (Write × Res) :=
-              if cf.restoreCommitted then [(.stage (min a.commit lastNew.index), fail v3 false t1)] else []
-            let steps2 := steps1 ++ stageSteps ++ [(.storeLogs newEntries, fail v3 false t1)]
-            let dlog2 := (newEntries.foldl storeOne { d with log := dlog1 }).log
-            let v4 := processConfigEntries v3 newEntries
-            let v5 : Vol := { v4 with lastLogIdx := lastNew.index, lastLogTerm := lastNew.term }
-            finish steps2 dlog2 v5
+        let dflt : Entry := ⟨0, 0, 0, 0, []⟩
+        let lastNew := lastOf newEntries dflt
+        let stageSteps : List (Write × Res) :=
+          if cf.restoreCommitted then [(.stage (min a.commit lastNew.index), aeFail v v3 false t1)] else []
+        let steps2 := steps1 ++ stageSteps ++ [(.storeLogs newEntries, aeFail v v3 false t1)]
+        let dlog2 := (newEntries.foldl storeOne { d with log := dlog1 }).log
+        let v4 := processConfigEntries v3 newEntries
+        let v5 : Vol := { v4 with lastLogIdx := lastNew.index, lastLogTerm := lastNew.term }
+        aeFinish v t1 a steps2 dlog2 v5
+
+def aePlan (cf : Cfg) (d : Durable) (v : Vol) (a : AEReq) : Plan :=
+  if a.term < v.term then ⟨[], aeFail v v false v.term⟩
+  else
+    let pre := aePre v a
+    let v2 := aeVol2 v a
+    let t1 := v2.term
+    match aePrevOk d v2 a with
+    | none => ⟨pre, aeFail v v2 true t1⟩
+    | some false => ⟨pre, aeFail v v2 true t1⟩
+    | some true => aeBody cf d v a pre v2 t1
 
 /-! ## InstallSnapshot (raft.go:1837) -/
 
